@@ -94,7 +94,23 @@ def dlint_fatal_determinism(ctx, prefix="C19"):
         ctx.violation("%s.dlint-report-depends-on-schedule-with-unparsable-file" % prefix,
                       "40 files, one unparsable: stderr/exit differ between thread counts %d and %d" % (a[0], b[0]),
                       {"dir": root, "run_a": {"threads": a[0], "exit": a[1], "stderr": a[2][-1200:]}, "run_b": {"threads": b[0], "exit": b[1], "stderr": b[2][-1200:]}})
-    return len(runs)
+    # the same path listed more than once (command line twice / overlapping globs): the report must not depend on
+    # which occurrence finishes first
+    big = "\n".join("debugger;" for _ in range(400)) + "\n"
+    open(os.path.join(root, "dup_big.ts"), "w").write(big)
+    open(os.path.join(root, "dup_small.ts"), "w").write("debugger;\n")
+    druns = []
+    for th in (1, 2, 4, 8, 16, 1, 8):
+        args = ["dup_big.ts", "dup_small.ts", "dup_big.ts", "f00.ts", "dup_small.ts", "dup_big.ts"]
+        rng.shuffle(args)
+        rc, so, se = run_dlint(dl, root, ["--rule", "no-debugger", "--format", "compact"] + args, th)
+        druns.append((th, rc, se))
+    if len({(rc, se) for _, rc, se in druns}) > 1:
+        a = druns[0]; b = next((r for r in druns if (r[1], r[2]) != (a[1], a[2])), druns[-1])
+        ctx.violation("%s.dlint-report-depends-on-schedule-with-duplicate-paths" % prefix,
+                      "a path listed several times: stderr/exit differ between thread counts %d and %d" % (a[0], b[0]),
+                      {"dir": root, "run_a": {"threads": a[0], "exit": a[1], "stderr": a[2][-600:]}, "run_b": {"threads": b[0], "exit": b[1], "stderr": b[2][-600:]}})
+    return len(runs) + len(druns)
 
 
 @register("C19")
